@@ -128,6 +128,14 @@ def run_psd(key):
     kw = dict(sensor_dim=s - nd if neg else s, time_dim=t - nd if neg else t, normalize=normalize)
     if src or k is not None:
         kw['source_dim'] = k - nd if neg else k
+    if key.get('omit'):
+        # arguments that equal their documented defaults (sensor_dim=-2, source_dim=-2, time_dim=-1,
+        # normalize=True) are left out of the call
+        for name_, dflt in (('sensor_dim', nd - 2), ('source_dim', nd - 2), ('time_dim', nd - 1)):
+            if name_ in kw and kw[name_] % nd == dflt:
+                del kw[name_]
+        if kw.get('normalize') is True:
+            del kw['normalize']
     obs.setflags(write=False)
     snap_o = obs.copy()
     snap_m = None
@@ -250,11 +258,13 @@ def subchecks(tier, seed):
                                     for normalize in (True, False):
                                         if not thorough and len(lead) == 3 and (neg != normalize):
                                             continue
-                                        yield (lead, dtk, kind, s, t, k, neg, normalize, 1.0, seed)
+                                        yield (lead, dtk, kind, s, t, k, neg, normalize, 1.0, False, seed)
+                                        if (k == nd - 2 or s == nd - 2 or t == nd - 1) and len(lead) <= 2:
+                                            yield (lead, dtk, kind, s, t, k, neg, normalize, 1.0, True, seed)
                                         if len(lead) <= 1 and neg and (thorough or dtk in (TRIPLES[2], TRIPLES[5])):
                                             for amp in (1e-8, 1e8, 1e-100):
-                                                yield (lead, dtk, kind, s, t, k, neg, normalize, amp, seed)
-    subs.append(Sub('psd_layouts', ('lead', 'dtk', 'mask', 's', 't', 'k', 'neg', 'normalize', 'amp', 'seed'),
+                                                yield (lead, dtk, kind, s, t, k, neg, normalize, amp, False, seed)
+    subs.append(Sub('psd_layouts', ('lead', 'dtk', 'mask', 's', 't', 'k', 'neg', 'normalize', 'amp', 'omit', 'seed'),
                     cases, run_psd,
                     bound=dict(leading_shapes=len(LEADS), triples=[list(t) for t in triples],
                                mask_kinds=list(kinds)), exhaustive=thorough))
